@@ -72,6 +72,9 @@ void RescaledHmmLikelihood::setNamespace(const std::string& nameSpace)
 
 void RescaledHmmLikelihood::fireParameterChanged(const ParameterList& pl)
 {
+  dVariable_ = "";
+  d2Variable_ = "";
+
   bool alphabetChanged    = hiddenAlphabet_->matchParametersValues(pl);
   bool transitionsChanged = transitionMatrix_->matchParametersValues(pl);
   bool emissionChanged    = emissionProbabilities_->matchParametersValues(pl);
